@@ -736,7 +736,20 @@ func Build(w World, p Params) *Concrete {
 	}
 	c.QeSpec = qe
 
+	var sharedHdrRoot *Entity
 	hdrRoot := func(art string) Entity {
+		if w.Get("sharedSigner") == "shared" && (art == "tcbRoot" || art == "qeRoot") {
+			// byte-identical issuer chains for both documents
+			if sharedHdrRoot == nil {
+				a := "tcbRoot"
+				if strings.HasPrefix(w.Get("time"), "qeRoot_") {
+					a = "qeRoot"
+				}
+				e := Reissue(H.Root, nil, H.Root.Key, win[a].nb, win[a].na, nil)
+				sharedHdrRoot = &e
+			}
+			return *sharedHdrRoot
+		}
 		return Reissue(H.Root, nil, H.Root.Key, win[art].nb, win[art].na, nil)
 	}
 	c.TcbSigner, c.QeSigner = tcbSign, qeSign
